@@ -88,8 +88,10 @@ CLAIMED["C04"] = dict(
          "transported to the current basis (same basis for all objects), and traces / tr(AB) / products are basis independent "
          "(conjugation action instance). The model is tied to Manager/eigenbasis_of/BasisManaged by exact comparison of the whole "
          "bookkeeping (stack depth, registry per level, basis labels, protection flags, current basis operator, flags) after every "
-         "event of random programs and 1e-9 comparison of every value read; tensors, superoperators and Lindblad forms in nested "
-         "contexts with exceptions are covered by the oracle only. Partial: protected objects inside contexts are modelled but "
+         "event of random programs and 1e-9 comparison of every value read; four-index tensors are not in the executable "
+         "C04 model: for them transform_back (there and back restores every tensor when SS S1 = 1) and transform_comp (nested "
+         "transformations compose) are proved on the transcription of RelaxationTensor.transform that the C01 driver ties to the code, "
+         "and the stream of tensors, superoperators and Lindblad forms in nested contexts with exceptions is the oracle. Partial: protected objects inside contexts are modelled but "
          "excluded from the restoration theorem; the eigh contract (S orthogonal, diagonalising, ascending) is re-checked numerically.",
     note="Lean kernel + standard axioms; hand model validated on generated programs; numpy.linalg.eigh / inv externals; exact group "
          "inverses in the theorem vs floating inverses in the code ('up to rounding' observed at 1e-9).",
@@ -146,7 +148,10 @@ CLAIMED["C07"] = dict(
          "cut-off times, propagation inside eigenbasis_of for all four forms, and uncoupled sites vs exp(-iwt-g(t)). The element "
          "formula of the time-dependent tensor vanishes where Lambda vanishes (time zero) and, for symmetric K, IS the "
          "time-independent formula for the same Lambda (last time index): tdTerm_zero, tdTensor_zero, tdTerm_eq_loopTerm, "
-         "tdTensor_eq_redfieldTensor. Partial: that the running spline integral is empty at t0 and is the full integral at the last "
+         "tdTensor_eq_redfieldTensor. In every basis (C07Basis, C07Covariant): for orthogonal S1 = SS^T the transformed tensor acts "
+         "on the transformed operator as the transformed result (transform_apply), the operator form with transformed components "
+         "(Kd recomputed as the transpose) acts as the transformed tensor (redfield_ops_in_new_basis), and the propagated trajectory "
+         "is covariant (propagate_covariant); code-side oracle apply:covariance:* through the package's own contexts. Partial: that the running spline integral is empty at t0 and is the full integral at the last "
          "index is a contract checked numerically; the analytic pure-dephasing comparison (time-step error) is measured, not proved.",
     note="Lean kernel + standard axioms; model validated on generated inputs; spline quadrature / c2g are externals. The former "
          "finding (time-dependent operator-form propagation on an axis coarser than the bath axis sampled the tensor at wrong times) is "
